@@ -255,7 +255,10 @@ def bytes_eq(ex, st, a, b):
 
 def re_match(ex, st, a, ins):
     pat = z3.simplify(a[0])
-    if not z3.is_string_value(pat): raise Unsupported('regexp with non-constant pattern')
+    if not z3.is_string_value(pat):
+        # configured (operator-supplied) pattern: its verdict is a symbolic predicate of (pattern, subject)
+        b = z3.Function('regexp.MatchString', z3.StringSort(), z3.StringSort(), z3.BoolSort())(a[0], a[1])
+        return fork_results(ex, st, ins, [(None, lambda s: (z3.BoolVal(False), mk_error(s, z3.StringVal('regexp'), 'regexp'))), (None, (b, nilerr()))])
     p = re.sub(r'\\u\{([0-9a-fA-F]+)\}', lambda m: chr(int(m.group(1), 16)), pat.as_string())
     try:
         r = rx.translate(p)
@@ -552,6 +555,8 @@ HTTP = {
     '(*bytes.Buffer).String': buf_string,
     '(*bytes.Buffer).Bytes': buf_bytes,
     'net/url.Parse': url_parse,
+    '(*net/url.URL).Hostname': lambda ex, st, a, ins: z3.Function('url.URL.Hostname', z3.StringSort(), z3.StringSort())(ex.getfield(st, ex.load(st, a[0]), ex.ir.typeid('net/url.URL'), 'Host')),
+    '(*net/url.URL).Port': lambda ex, st, a, ins: z3.Function('url.URL.Port', z3.StringSort(), z3.StringSort())(ex.getfield(st, ex.load(st, a[0]), ex.ir.typeid('net/url.URL'), 'Host')),
     'net.SplitHostPort': net_splithostport,
     '(*html/template.Template).ExecuteTemplate': tmpl_exec,
     '(*text/template.Template).ExecuteTemplate': tmpl_exec,
